@@ -1141,9 +1141,25 @@ func (st *State) invokeVal(g *G, fr *Frame, res *ssa.Call, fnv Val, args []Val, 
 	if o := fn.Origin(); o != nil {
 		name = o.String()
 	}
-	_, cut := st.eng.Cfg.Cuts[name]
-	if cut && st.eng.isInternal(fn) && allConstArgs(args) {
+	ckind, cut := st.eng.Cfg.Cuts[name]
+	if cut && st.eng.isInternal(fn) && allConstArgs(args) && !strings.HasPrefix(ckind, "call:") {
 		cut = false // constant inputs: run the real body, constant folding is exact
+	}
+	if cut && strings.HasPrefix(ckind, "call:") {
+		// redirect to a harness function with the same arguments (receiver first)
+		target := st.eng.lookupFunc(ckind[5:])
+		if target == nil {
+			st.fail("engine-error", "cut target not found: "+ckind)
+		}
+		st.eng.stubs["cut:"+name+" -> "+ckind[5:]] = true
+		if fr.Fn == target {
+			cut = false // the replacement itself may call the original
+		} else {
+			fn = target
+			binds = nil
+			cut = false
+			name = target.String()
+		}
 	}
 	if cut || !st.eng.isInternal(fn) || isIntrinsic(name) {
 		ret, blocked := st.callExtern(g, fr, name, fn, args, fn.Signature, res)
@@ -1294,4 +1310,18 @@ func allConstArgs(args []Val) bool {
 		}
 	}
 	return true
+}
+
+// lookupFunc finds a package-level function by its full name "pkgpath.Name".
+func (e *Engine) lookupFunc(full string) *ssa.Function {
+	i := strings.LastIndex(full, ".")
+	if i < 0 {
+		return nil
+	}
+	for _, p := range e.Prog.AllPackages() {
+		if p.Pkg.Path() == full[:i] {
+			return p.Func(full[i+1:])
+		}
+	}
+	return nil
 }
